@@ -7,7 +7,7 @@
    regex / host-range oracle. *)
 From Coq Require Import List NArith ZArith Bool Permutation.
 From PM Require Import Base.Bytes Base.Outcome Gen.GenConsts Model.ScriptAst Model.Enqueue Model.Script Model.Device Model.Client Model.Daemon
-                       Proofs.DaemonLedger.
+                       Proofs.DeviceInv Proofs.DeviceRun Proofs.DaemonLedger Proofs.DaemonPending Proofs.DaemonFds.
 Import ListNotations.
 Local Open Scope Z_scope.
 
@@ -40,22 +40,56 @@ Section C20.
     Permutation (accepts ev) (closes ev ++ ids st') /\ NoDup (closes ev) /\ NoDup (ids st') /\
     (forall id, In id (closes ev) -> ~ In id (ids st')).
   Proof. exact (client_descriptors_balanced expand_str ranged_sorted ranged_plain sorted rmatch compress short_circuit). Qed.
+
+  (* Device side, every history from start-up (coprocess transports): in every reachable state each device holds a
+     descriptor exactly when it is connected or connecting, so
+        descriptors beyond the listeners = live clients + attached devices,   children = attached (coprocess) devices,
+     and every device still satisfies the device-layer invariant (no stale descriptor, login bookkeeping consistent). *)
+  Theorem C20_device_descriptors : forall st now plans rs,
+    boot compress st -> all_pipe st -> rounds_plain rs -> Z.of_nat (length rs) < INT_MAX - 1 ->
+    exists st1 o, dinit st now plans = Ok (st1, o) /\
+      match drun expand_str ranged_sorted ranged_plain sorted rmatch compress short_circuit st1 rs [] with
+      | Ok (st', outs) =>
+          open_fds st' = (length (dm_clients st') + length (filter attached (dm_devs st')))%nat /\
+          Forall (fun d => dv_has_fd d = attached d) (dm_devs st')
+      | Hang _ => True
+      | _ => False
+      end.
+  Proof.
+    intros st now plans rs Hb Hp Hr Hn.
+    destruct (daemon_invariant expand_str ranged_sorted ranged_plain sorted rmatch compress short_circuit st now plans rs Hb Hp Hr Hn) as (st1 & o & E & H).
+    exists st1, o. split; [exact E|].
+    destruct (drun expand_str ranged_sorted ranged_plain sorted rmatch compress short_circuit st1 rs []) as [[st' outs]| | | |]; try contradiction; [|exact I].
+    destruct H as (_ & _ & Hd & _). split.
+    - unfold open_fds, dev_fds. now rewrite (dev_fds_attached compress _ Hd).
+    - eapply Forall_impl; [|exact Hd]. intros d Hdd. exact (has_fd_attached compress d Hdd).
+  Qed.
 End C20.
+
+(* with coprocess transports only, one child per device that holds a descriptor *)
+Theorem C20_children : forall st, all_pipe st -> children st = dev_fds st.
+Proof. intros st Hp. unfold children, dev_fds. apply kids_all_pipe. exact Hp. Qed.
 
 (* shutdown (cli_fini): one close per live client record, nothing else is left of the client layer *)
 Theorem C20_shutdown_closes_all : forall st, closes (shutdown_evs st) = ids st.
 Proof. intros st. unfold shutdown_evs, closes, ids, cid. induction (dm_clients st) as [|x l IH]; cbn; [reflexivity|]. now rewrite IH. Qed.
 
-(* non-vacuity: a concrete pass that accepts a client, and one that destroys it after `quit` *)
+(* non-vacuity: a pass that accepts a client; one in which it sends `quit` (the 101 line is queued, the record stays: F37);
+   one in which the descriptor is writable: everything owed is written and the client is destroyed *)
 Example C20_nonvacuous :
   let st0 := mkDaemon [bslit "n0"] [] [] [] [] [] 1 [] (bslit "2.4") [] in
   let nolist := fun _ : list text => @nil N in
-  match dstep (fun _ => None) nolist nolist (fun l => l) (fun _ _ => None) nolist false st0 (mkRound 0 true [] []) with
+  let step := dstep (fun _ => None) nolist nolist (fun l => l) (fun _ _ => None) nolist false in
+  match step st0 (mkRound 0 true [] []) with
   | Ok (st1, o1) =>
       ids st1 = [1] /\ accepts (do_evs o1) = [1] /\
-      match dstep (fun _ => None) nolist nolist (fun l => l) (fun _ _ => None) nolist false st1
-                  (mkRound 10 false [mkCin false true false (Some (bslit "quit" ++ [LF])) None true] []) with
-      | Ok (st2, o2) => ids st2 = [] /\ closes (do_evs o2) = [1]
+      match step st1 (mkRound 10 false [mkCin false true true (Some (bslit "quit" ++ [LF])) (Some 1000%nat)] []) with
+      | Ok (st2, o2) =>
+          ids st2 = [1] /\ closes (do_evs o2) = [] /\
+          match step st2 (mkRound 20 false [mkCin false false true None (Some 1000%nat)] []) with
+          | Ok (st3, o3) => ids st3 = [] /\ closes (do_evs o3) = [1]
+          | _ => False
+          end
       | _ => False
       end
   | _ => False
@@ -65,11 +99,13 @@ Proof. vm_compute. repeat split; reflexivity. Qed.
 Print Assumptions C20_pass_ledger.
 Print Assumptions C20_client_descriptors.
 Print Assumptions C20_shutdown_closes_all.
+Print Assumptions C20_device_descriptors.
+Print Assumptions C20_children.
 
-(* OPEN (DESIGN §5 C20): (1) device side: `dv_has_fd d = true <-> dv_cstate d <> DEV_NOT_CONNECTED` for every reachable
-   state (one descriptor per connected or connecting device) is the device-layer invariant of Properties/C07.v; in this
-   file the device descriptors and coprocess children are FUNCTIONS of the state (Daemon.open_fds / Daemon.children) and
-   are tied to the implementation by the per-pass comparison of R-SIM, not by a theorem about open()/close()/fork()/
-   waitpid() calls of device_tcp.c / device_pipe.c, which Model/Device.v abstracts into connect plans.
+(* OPEN (DESIGN §5 C20): (1) device side: C20_device_descriptors proves "one descriptor per connected or connecting device"
+   for every reachable state, but the device descriptors and coprocess children are FUNCTIONS of the state (dv_has_fd,
+   transport kind) tied to the implementation by the per-pass comparison of R-SIM (descriptor and child counts at every
+   poll), not derived from the open()/close()/fork()/waitpid() calls of device_tcp.c / device_pipe.c, which
+   Model/Device.v abstracts into connect plans.
    (2) heap: "does not grow from request to request" is not stated: Model/Daemon.v never frees an ArgList slot; the
    reference counting of arglist.c is outside the model (pmsim's MEM probe is testing only). *)
